@@ -29,7 +29,8 @@ def run(prog, chk):
     chk.not_decided = ["http_parser_parse_url itself"]
     chk.rule("C20.schemes", "scheme table and case-insensitive lookup", floor=15)
     chk.rule("C20.dispatch", "transport dispatch, address and credential arguments (blocking and asynchronous)", floor=30)
-    chk.rule("C20.split", "uriSplit output provenance; uriCompose order", floor=9)
+    chk.rule("C20.split", "uriSplit output provenance; uriCompose order and host forms", floor=12)
+    chk.rule("C20.nullable", "results of strstr / strchr / ... in the URI handling units are compared with NULL before they are used", floor=2)
 
     K = prog.const
     KIND = {K("URI_HTTP"): "URI_HTTP", K("URI_TCP"): "URI_TCP", K("URI_FILE"): "URI_FILE", K("URI_UNKNOWN"): "URI_UNKNOWN"}
@@ -65,7 +66,7 @@ def run(prog, chk):
                loc=fg.loc(), fn=fg, nontrivial=(s == "gopher"))
 
     # ------------------------------------------------------------------ dispatch tables
-    def drive(fn, kind, explicit, embedded, parse_ok, is_async):
+    def drive(fn, kind, explicit, embedded, parse_ok, is_async, ipv6=0):
         pn = [p["n"] for p in fn.params]
         calls = []
 
@@ -93,6 +94,7 @@ def run(prog, chk):
         ov = {"KSI_FsClient_extractPath": lambda I, p, n, a: (I.write(p, lvalue_key(strip(n["a"][1])["e"], I.fn), Ptr("FSPATH")), 0)[1],
               "KSI_TcpAsyncClient_setService": lambda I, p, n, a: (calls.append(("KSI_TcpAsyncClient_setService", a)), 0)[1],
               "KSI_HttpAsyncClient_setService": lambda I, p, n, a: (calls.append(("KSI_HttpAsyncClient_setService", a)), 0)[1],
+              "strchr": lambda I, p, n, a: (Ptr("HOST+colon") if (ipv6 and a[0] == Ptr("HOST") and a[1] == 58) else (0 if a[0] == Ptr("HOST") else TOP)),
               "strlen": lambda I, p, n, a: 5 if (a[0] == Ptr("arr:addr") and any(c[0] == "compose" for c in calls)) else (0 if a[0] == Ptr("arr:addr") else TOP)}
         if is_async:
             inputs = {pn[0]: Ptr("svc"), pn[1]: Ptr("URI"), pn[2]: Ptr("EXP_USER") if explicit else 0, pn[3]: Ptr("EXP_KEY") if explicit else 0,
@@ -111,17 +113,19 @@ def run(prog, chk):
     fb = prog.fn("uriClient_setService", "net_uri.c")
     fa = prog.fn("asyncService_setupAsyncClient", "net_async.c")
     for fn, is_async in ((fb, False), (fa, True)):
-        for kind, explicit, embedded, parse_ok in itertools.product(("URI_HTTP", "URI_TCP", "URI_FILE", "URI_UNKNOWN"), (1, 0), (1, 0), (1, 0)):
+        for kind, explicit, embedded, parse_ok, ipv6 in itertools.product(("URI_HTTP", "URI_TCP", "URI_FILE", "URI_UNKNOWN"), (1, 0), (1, 0), (1, 0), (0, 1)):
             if not parse_ok and kind != "URI_UNKNOWN":
                 continue       # a URI that cannot be split has no scheme, hence is URI_UNKNOWN (scheme table above)
             if not parse_ok:
                 embedded = 0
-            q, calls = drive(fn, kind, explicit, embedded, parse_ok, is_async)
+            if ipv6 and (not parse_ok or kind in ("URI_FILE", "URI_UNKNOWN")):
+                continue
+            q, calls = drive(fn, kind, explicit, embedded, parse_ok, is_async, ipv6)
             user = Ptr("EXP_USER") if explicit else (Ptr("EMB_USER") if embedded else 0)
             key = Ptr("EXP_KEY") if explicit else (Ptr("EMB_KEY") if embedded else 0)
             sets = [c for c in calls if c[0] != "compose"]
             comp = [c for c in calls if c[0] == "compose"]
-            inst = "%s[%s,explicit=%d,embedded=%d,parsed=%d]" % ("async" if is_async else "blocking", kind, explicit, embedded, parse_ok)
+            inst = "%s[%s,explicit=%d,embedded=%d,parsed=%d%s]" % ("async" if is_async else "blocking", kind, explicit, embedded, parse_ok, ",ipv6-host" if ipv6 else "")
             leak = any(a in (Ptr("EMB_USER"), Ptr("EMB_KEY")) for c in sets for a in c[1][1:-2]) or \
                 any(a in (Ptr("EMB_USER"), Ptr("EMB_KEY"), Ptr("EXP_USER"), Ptr("EXP_KEY")) for c in comp for a in c[1])
             ok = False
@@ -185,13 +189,60 @@ def run(prog, chk):
         return 3
     inputs = dict(zip(cn, [Ptr("S"), 0, 0, Ptr("H"), 8080, Ptr("P"), Ptr("Q"), Ptr("F"), Ptr("buf"), 1000]))
     inputs["P[0]"] = 47
-    I = Interp(fc, inputs=inputs, call_model=succeed_model(prog, {"KSI_snprintf": snp}), on_unknown="stop", prog=prog)
+    inputs["H[0]"] = 104
+    nocolon = {"KSI_snprintf": snp, "strchr": lambda I, p, node, args: 0 if args[0] == Ptr("H") else TOP}
+    I = Interp(fc, inputs=inputs, call_model=succeed_model(prog, nocolon), on_unknown="stop", prog=prog)
     paths = I.run()
     ok = len(paths) == 1 and not paths[0].undetermined and fmts == ["%s://", "%s", ":%d", "%s%s", "?%s", "#%s"]
     chk.ob("C20.split", "uriCompose:order", ok, "without credentials the parts are emitted as %s (expected scheme://, host, :port, path, ?query, #fragment)" % fmts,
            loc=fc.loc(), fn=fc)
     fmts.clear()
     inputs[cn[4]] = 0
-    I = Interp(fc, inputs=inputs, call_model=succeed_model(prog, {"KSI_snprintf": snp}), on_unknown="stop", prog=prog)
+    I = Interp(fc, inputs=inputs, call_model=succeed_model(prog, nocolon), on_unknown="stop", prog=prog)
     paths = I.run()
     chk.ob("C20.split", "uriCompose:no-port", len(paths) == 1 and ":%d" not in fmts and len(fmts) == 5, "port 0 emits no ':port' (%s)" % fmts, loc=fc.loc(), fn=fc)
+    # host forms: a name / IPv4 address is emitted as it is, an IPv6 literal (the parser's host field has no brackets) in brackets
+    for form, first, has_colon, want in (("name", 104, 0, "%s"), ("ipv4", 49, 0, "%s"), ("ipv6", 58, 1, "[%s]")):
+        fmts.clear()
+        inputs[cn[4]] = 8080
+        inputs["H[0]"] = first
+
+        def strchr_(I, p, node, args, has_colon=has_colon):
+            if args[0] == Ptr("H") and args[1] == 58:
+                return Ptr("H+colon") if has_colon else 0
+            return TOP
+        I = Interp(fc, inputs=inputs, call_model=succeed_model(prog, {"KSI_snprintf": snp, "strchr": strchr_}), on_unknown="stop", prog=prog)
+        paths = I.run()
+        chk.paths += len(paths)
+        if len(paths) != 1 or paths[0].undetermined:
+            raise AnalysisBroken("uriCompose: evaluation not determined for a host of form %s: %s" % (form, [q.undetermined[:1] for q in paths]))
+        chk.ob("C20.split", "uriCompose:host[%s]" % form, len(fmts) > 1 and fmts[1] == want,
+               "the host part of a %s host is emitted with format %r (expected %r: the composed URL must name the same host)" % (form, fmts[1] if len(fmts) > 1 else None, want),
+               loc=fc.loc(), fn=fc)
+
+    # ------------------------------------------------------------------ nullable search results (scheme / user-info / path extraction)
+    from ksirules.flow import path_lines
+    from ksirules.ownership import NULLABLE, nullable_arithmetic, unchecked_allocations
+    units = {"net.c", "net_uri.c", "net_file.c", "net_async.c", "net_http.c", "net_tcp.c", "net_ha.c", "net_curl.c", "net_tcp_async.c", "net_http_async.c"}
+    sites = 0
+    for fn in sorted(prog.all_functions(), key=lambda f: (f.unit, f.line)):
+        if fn.unit not in units:
+            continue
+        n = sum(1 for b, i, c in fn.calls(NULLABLE))
+        if not n:
+            continue
+        sites += n
+        bad = False
+        for (b, i, callee, text) in nullable_arithmetic(fn):
+            bad = True
+            chk.ob("C20.nullable", "%s:%s" % (fn.name, callee), False,
+                   "the result of %s is used in %s before it can be compared with NULL: when the searched text is absent (e.g. another "
+                   "letter case of the scheme) an invalid pointer is used" % (callee, text), loc=fn.loc(fn.elem_line(b, i)), fn=fn)
+        for (b, i, v, what, w) in unchecked_allocations(prog, fn, NULLABLE):
+            bad = True
+            chk.ob("C20.nullable", "%s:%s" % (fn.name, v), False, "%s is used before the search result was compared with NULL" % what,
+                   loc=fn.loc(fn.elem_line(b, i)), fn=fn, path=path_lines(fn, w))
+        if not bad:
+            chk.ob("C20.nullable", fn.name, True, "%d search result(s), each compared with NULL before use" % n, loc=fn.loc(), fn=fn)
+    if sites < 2:
+        raise AnalysisBroken("only %d calls of string search functions found in the URI handling units" % sites)
